@@ -144,6 +144,40 @@ def check(ctx: Ctx, rep: Report):
                         and n.target.value.id in ("cls", ci.name) and n.target.attr in class_level:
                     rep.violation("C20.R2", "class-mutation:%s.%s:%s" % (ci.name, m.name, norm(n)[:50]), m.loc(n), "%s.%s rebinds a class attribute" % (ci.name, m.name))
         rep.ok("C20.R2", "class-containers:%s" % ci.name, "%s:%d" % (ci.module.relpath, ci.node.lineno), "%s: %d class-level tables scanned for in-place mutation" % (ci.name, len(class_level)))
+    # in-place mutation of class-level containers of every other class (protocol, command and sensor classes): a dict
+    # or list in a class body is one object for all instances (e.g. a "cache" keyed without the instance's identity)
+    done = {c.qualname for c in prog.all_subclasses(inv, include_self=False)}
+    for ci in prog.classes.values():
+        if ci.qualname in done:
+            continue
+        class_level = {a for a, v in ci.class_attrs.items() if isinstance(v, (ast.List, ast.Dict, ast.Set, ast.ListComp, ast.DictComp, ast.SetComp))
+                       or (isinstance(v, ast.Call) and norm(v.func) in ("dict", "list", "set", "defaultdict", "collections.defaultdict", "OrderedDict"))}
+        shadowed = set()
+        for c2 in [x for x in prog.mro(ci) if hasattr(x, "methods")]:
+            init = c2.methods.get("__init__")
+            if init is not None:
+                shadowed |= {a for n in ast.walk(init.node) if isinstance(n, ast.stmt) for a, _, _ in self_store(n)}
+        class_level -= shadowed
+        for sub in prog.all_subclasses(ci):
+            for m in sub.methods.values():
+                for n in ast.walk(m.node):
+                    recv = None
+                    if isinstance(n, ast.Call) and isinstance(n.func, ast.Attribute) and n.func.attr in MUTATORS:
+                        recv = n.func.value
+                    elif isinstance(n, (ast.Assign, ast.AugAssign)):
+                        for t in (n.targets if isinstance(n, ast.Assign) else [n.target]):
+                            if isinstance(t, ast.Subscript):
+                                recv = t.value
+                    elif isinstance(n, ast.Delete):
+                        for t in n.targets:
+                            if isinstance(t, ast.Subscript):
+                                recv = t.value
+                    if isinstance(recv, ast.Attribute) and isinstance(recv.value, ast.Name) and recv.value.id in ("self", "cls", ci.name) and recv.attr in class_level:
+                        rep.violation("C20.R2", "class-mutation:%s.%s:%s" % (sub.name, m.name, recv.attr), m.loc(n),
+                                      "%s.%s mutates %s.%s, a container created once in the class body and shared by every %s object in the process: what one inverter object stores there is seen by all others" % (
+                                          sub.name, m.name, ci.name, recv.attr, ci.name))
+        if class_level:
+            rep.ok("C20.R2", "class-containers:%s" % ci.name, "%s:%d" % (ci.module.relpath, ci.node.lineno), "%s: class-level containers %s are never mutated in place" % (ci.name, sorted(class_level)))
     # ---- R3
     globals_found = []
     mutated = []
